@@ -699,11 +699,17 @@ class QueueCollection(object):
             raise errors.QueuesNotValidated()
 
         mergeable_prs = self._extract_pr_ids(self._queues)
+        mergeable_queues = deepcopy(self._queues)
 
-        if not self.force_merge:
+        # Dropping pull requests on account of one merge path exposes older
+        # queue tips on the other paths, which must be green as well: look
+        # again until no path shortens the list any further.
+        checked_prs = None
+        while not self.force_merge and checked_prs != mergeable_prs:
+            checked_prs = mergeable_prs
             for merge_path in self.merge_paths:
                 versions = [branch.version_t for branch in merge_path]
-                stack = deepcopy(self._queues)
+                stack = deepcopy(mergeable_queues)
                 # remove versions not on this merge_path from consideration
                 for version in list(stack.keys()):
                     # exclude hf version from this pop process
@@ -717,10 +723,9 @@ class QueueCollection(object):
                 # smallest table is the common denominator
                 if len(path_mergeable_prs) < len(mergeable_prs):
                     mergeable_prs = path_mergeable_prs
+                    self._remove_unmergeable(mergeable_prs, mergeable_queues)
 
         self._mergeable_prs = mergeable_prs
-        mergeable_queues = deepcopy(self._queues)
-        self._remove_unmergeable(mergeable_prs, mergeable_queues)
         self._mergeable_queues = mergeable_queues
 
     def finalize(self):
